@@ -105,6 +105,21 @@ def parallel(fn, tier, seed, nshards=None, extra=()):
     return total
 
 
+def replay_in_fresh_interpreter(module_name, case, timeout=900):
+    """Runs `module._replay_inner(case)` in a brand-new interpreter and returns its JSON result.
+    Used by checks that hunt hidden process state, where an in-process replay would inherit
+    whatever earlier executions left behind."""
+    import subprocess
+    code = ("import sys, json; import mc; import importlib; "
+            f"m = importlib.import_module({module_name!r}); "
+            "print('@@RESULT@@' + json.dumps(m._replay_inner(json.loads(sys.stdin.read()))))")
+    p = subprocess.run([sys.executable, "-W", "ignore", "-c", code], input=json.dumps(case),
+                       capture_output=True, text=True, cwd=env.VERIF, timeout=timeout)
+    if p.returncode != 0 or "@@RESULT@@" not in p.stdout:
+        return "replay subprocess failed: " + (p.stderr or p.stdout)[-400:]
+    return json.loads(p.stdout.split("@@RESULT@@")[-1])
+
+
 def load_known():
     path = os.path.join(env.VERIF, "known_findings.json")
     if not os.path.exists(path):
